@@ -404,11 +404,14 @@ func formatAmountQuantity(amount *ast.Amount, commodityFormats map[string]Number
 	}
 	if commodityFormats != nil {
 		// First try specific commodity format
-		if format, ok := commodityFormats[amount.Commodity.Symbol]; ok {
-			return FormatNumber(amount.Quantity, format)
+		format, ok := commodityFormats[amount.Commodity.Symbol]
+		if !ok {
+			// Then try default format (stored under empty key)
+			format, ok = commodityFormats[""]
 		}
-		// Then try default format (stored under empty key)
-		if format, ok := commodityFormats[""]; ok {
+		// A display format must not change the quantity: fall back to the original
+		// spelling when the format cannot write it faithfully.
+		if ok && (amount.RawQuantity == "" || formatIsFaithful(amount.Quantity, format)) {
 			return FormatNumber(amount.Quantity, format)
 		}
 	}
